@@ -1,4 +1,5 @@
 import Shentu.EVM.Impl
+import Shentu.Gen.Determinism
 /-
   C17 — contract execution is metered.
 
@@ -24,6 +25,10 @@ open Shentu Shentu.EVM
 
 /-- (a) every extraction site of the gas schedule was recognised in the current source -/
 theorem tie_sites : Gen.Gas.allFound = true := by decide
+
+/-- (a') nowhere in the consensus code is a context's gas meter replaced (regenerated inventory: `WithGasMeter`,
+    `NewInfiniteGasMeter`, `NewGasMeter` outside tests): the work a transaction causes is charged to the meter baseapp gave it -/
+theorem gas_meter_never_replaced : Gen.Determinism.gasMeterSites = [] := by decide
 
 -- ---------------------------------------------------------------- the monad
 
